@@ -431,6 +431,49 @@ def main(ctx: Ctx) -> int:
         traces.append({"tid": len(traces) + 1, "req": {}, "ev": [{"act": "Example", "same": not diff, "diff": diff[:5]}], "cli": f"naunet example --select={sel}",
                        "project": f"example {exname}", "be": "-"})
     cov["bundled_examples_configured"] = nex
+    # `naunet example --select=i --path=<dir> --render-force` for real, into a directory that already holds an OLDER (truncated) copy of the
+    # example's network file: the project it leaves behind holds the bundled network and sources rendered from it.  (On this tree the command
+    # goes on to render the example's test programs and stops there -- the repository's own failing test; the project is complete by then.)
+    import naunet as _naunet
+    nrun_ex = 0
+    for sel, exname in () if MODIFIERS_ONLY else ((4, "minimal"), (9, "primordial")):
+        d = ctx.sub("example_run") / exname
+        d.mkdir()
+        mod = importlib.import_module(f"naunet.examples.{exname}")
+        src = Path(_naunet.__file__).parent / "examples" / exname / mod.files
+        whole = src.read_text().splitlines(keepends=True)
+        (d / mod.files).write_text("".join(whole[: max(2, len(whole) // 2)]))
+        diff, err = [], ""
+        try:
+            Species.reset()
+            with quiet():
+                CommandTester(app.find("example")).execute(f"--select={sel} --path={d} --render-force", interactive=False)
+        except BaseException as e:   # noqa  (SystemExit included)
+            err = f"{type(e).__name__}: {str(e)[:100]}"
+        finally:
+            os.chdir(cwd0)
+            Species.reset()
+        if not (d / mod.files).exists() or (d / mod.files).read_bytes() != src.read_bytes():
+            diff.append(f"{mod.files} in the project is not the bundled file ({len((d / mod.files).read_text().splitlines()) if (d / mod.files).exists() else 0} "
+                        f"lines, bundled {len(whole)})")
+        try:
+            import creader
+            nre = creader.parse_macros((d / "include" / "naunet_macros.h").read_text())["NREACTIONS"]
+            Species.reset()
+            with quiet():
+                ref = nn.Network(filelist=str(src), fileformats=mod.formats, elements=list(mod.elements), pseudo_elements=list(mod.pseudo_elements),
+                                 allowed_species=list(mod.allowed_species), required_species=list(mod.extra_species))
+            if nre != len(ref.reaction_list):
+                diff.append(f"NREACTIONS = {nre}, the bundled network has {len(ref.reaction_list)} reactions")
+        except Exception as e:   # noqa
+            diff.append(f"rendered project unreadable: {type(e).__name__}: {str(e)[:100]} (command: {err})")
+        finally:
+            os.chdir(cwd0)
+            Species.reset()
+        nrun_ex += 1
+        traces.append({"tid": len(traces) + 1, "req": {}, "ev": [{"act": "ExampleRun", "same": not diff, "diff": diff[:4], "err": err}],
+                       "cli": f"naunet example --select={sel} --path=<dir with an older {mod.files}> --render-force", "project": f"example {exname} (run)", "be": "-"})
+    cov["bundled_examples_run_over_an_older_network_file"] = nrun_ex
     v = validate_traces(ctx, "Trace_ConfigRoundTrip.tla", "Trace_ConfigRoundTrip.cfg", [{k2: t[k2] for k2 in ("tid", "req", "ev")} for t in traces], "cfg")
     cov["traces_validated_against_impl"] = len(traces)
     cov["traces_accepted"] = v["accepted"]
